@@ -8,6 +8,7 @@ use crate::engine::monitor;
 use crate::oracle::poker::Oracle;
 use std::sync::OnceLock;
 
+pub mod consts;
 pub mod hands;
 pub mod c01;
 pub mod c02;
